@@ -626,8 +626,11 @@ const KITTY_MAX_ID: u64 = 4294967295;
 const KITTY_MAX_DIM: u64 = 65536;
 
 /// Identification for image data
+///
+/// Zero is not a valid image id (the protocol reads it as "unspecified"),
+/// so identifiers are in the range `1..=KITTY_MAX_ID`.
 fn kitty_image_id(img: &Image) -> u64 {
-    img.hash() % KITTY_MAX_ID
+    img.hash() % KITTY_MAX_ID + 1
 }
 
 /// Identification of particular placement of the image
@@ -635,14 +638,19 @@ fn kitty_image_id(img: &Image) -> u64 {
 /// In general this identification is just represents individual placement
 /// but in particular implementation it is bound to a physical position on
 /// the screen.
+///
+/// Zero is not a valid placement id (the protocol reads it as "unspecified"),
+/// so identifiers are in the range `1..=KITTY_MAX_ID`.
 fn kitty_placement_id(pos: Position) -> u64 {
-    (pos.row as u64 % KITTY_MAX_DIM) + (pos.col as u64 % KITTY_MAX_DIM) * KITTY_MAX_DIM
+    let index = (pos.row as u64 % KITTY_MAX_DIM) + (pos.col as u64 % KITTY_MAX_DIM) * KITTY_MAX_DIM;
+    index % KITTY_MAX_ID + 1
 }
 
 fn kitty_placement_to_pos(placement_id: u64) -> Position {
+    let index = placement_id.saturating_sub(1);
     Position {
-        col: (placement_id / KITTY_MAX_DIM) as usize,
-        row: (placement_id % KITTY_MAX_DIM) as usize,
+        col: (index / KITTY_MAX_DIM) as usize,
+        row: (index % KITTY_MAX_DIM) as usize,
     }
 }
 
@@ -658,6 +666,11 @@ impl ImageHandler for KittyImageHandler {
             ?img,
             "[KittyImageHandler.draw]"
         );
+        // An image without pixels can not be transmitted (the protocol rejects
+        // zero width/height), so there is nothing to place either.
+        if img.height() == 0 || img.width() == 0 {
+            return Ok(());
+        }
         let img_id = kitty_image_id(img);
 
         // q   - suppress response from the terminal 1 - OK only, 2 - All.
@@ -840,12 +853,20 @@ impl ImageHandler for SixelImageHandler {
         let height = (img.height() / 6) * 6;
         // sixel color chanel has a range [0,100] colors, we need to reduce it before
         // quantization, it will produce smaller or/and better palette for this color depth
+        // transparent pixels are composited over the background first, so that the
+        // reduction below is applied to the colors that are actually displayed
+        let bg = self.bg.unwrap_or_else(|| RGBA::new(0, 0, 0, 255));
         let dimg = Image::from(img.view(..height, ..).map(|_, color| {
-            let [red, green, blue, alpha] = color.to_rgba();
+            let color = if color.to_rgba()[3] < 255 {
+                bg.blend_over(*color)
+            } else {
+                *color
+            };
+            let [red, green, blue] = color.to_rgb();
             let red = ((red as f32 / 2.55).round() * 2.55) as u8;
             let green = ((green as f32 / 2.55).round() * 2.55) as u8;
             let blue = ((blue as f32 / 2.55).round() * 2.55) as u8;
-            RGBA::new(red, green, blue, alpha)
+            RGBA::new(red, green, blue, 255)
         }));
         let (palette, qimg) = match dimg.quantize(256, true, self.bg) {
             None => return Ok(()),
